@@ -168,6 +168,113 @@ def make_regen_history(g, sc, rounds):
     return files, table, steps, meta
 
 
+def make_dd_restat_history(g, sc):
+    """The situation in which ninja has to take a verdict back: a statement whose restat flag comes from a dyndep file is
+    left older than one of its inputs by a restat no-op; later the dyndep file has to be regenerated, so the first scan
+    judges the statement without the flag (dirty), and the re-scan after loading the file finds it clean - together with
+    the aliases and consumers behind it - while unrelated work is still pending."""
+    r = g.r
+    cur = copy.deepcopy(sc)
+    served = [s for s in cur["stmts"] if s["dd"]]
+    if not served:
+        return None
+    d = r.choice(served)
+    src = d["ins"][0]
+    # the dyndep file only orders this statement (were it an implicit input, rewriting it would make the statement dirty by
+    # itself), and nothing the statement reads is produced by another statement that could be dirty
+    if d["dyndep"] in d["iins"]:
+        d["iins"].remove(d["dyndep"])
+        d["oins"].append(d["dyndep"])
+    hdr = sorted(p for p in cur["sources"] if p.startswith("m") and p.endswith(".h"))[0]
+    lines = [l for l in cur["sources"][src].split("\n") if l and not (l.startswith("#include ") and not l[9:].endswith(".h"))]
+    d["ins"] = [src]
+    d["oins"] = [d["dyndep"]]
+    if "#ddrestat" not in lines:
+        lines.insert(0, "#ddrestat")
+    if "#include " + hdr not in lines:
+        lines.insert(0, "#include " + hdr)
+    cur["sources"][src] = "\n".join(lines) + "\n"
+    # nested aliases and a consumer behind it: they are wanted with it and have to leave the plan with it
+    tail = d["outs"][0]
+    for lv in range(r.randint(1, 4)):
+        al = "alr_%s_%d" % (d["id"], lv)
+        cur["stmts"].append(St(al, [al], ins=[tail], kind="phony"))
+        tail = al
+    cur["sources"]["cur_%s.c" % d["id"]] = "// consumer\n"
+    cons = St("ur_" + d["id"], ["o/ur_%s.o" % d["id"]], ins=["cur_%s.c" % d["id"]])
+    cons["oins" if r.random() < 0.5 else "ins"].append(tail)
+    cur["stmts"].append(cons)
+    if cur["defaults"]:
+        cur["defaults"].append(cons["outs"][0])
+    steps, meta = [], []
+
+    def add(step, **m):
+        steps.append(step)
+        m["sc"] = copy.deepcopy(cur)
+        meta.append(m)
+
+    def b(targets=None):
+        st = g.build_step(cur)
+        st["targets"] = [] if targets is None else targets
+        return st
+    first = b()
+    add(first, kind="build", first=True)
+    add(dict(first, sched={"mode": "prng", "seed": r.randint(1, 10 ** 6)}), kind="rebuild")
+    for _ in range(r.randint(1, 2)):
+        add({"op": "touch", "path": hdr}, kind="change", desc=("touch", hdr))
+        x = b()
+        add(x, kind="build", changes=[("touch", hdr)])
+        descs = []
+        trig = "ddscan.src" if "ddscan.src" in cur["sources"] and r.random() < 0.9 else src
+        add({"op": "touch", "path": trig}, kind="change", desc=("touch", trig))
+        descs.append(("touch", trig))
+        others = sorted(p for p in cur["sources"] if p.endswith(".c"))
+        for p_ in r.sample(others, min(len(others), r.randint(1, 2))):
+            cur["sources"][p_] += "// e%d\n" % r.randint(0, 10 ** 6)
+            add({"op": "write", "path": p_, "content": cur["sources"][p_]}, kind="change", desc=("edit", p_))
+            descs.append(("edit", p_))
+        y = b()
+        y["j"] = r.choice((1, 1, 2, 3))
+        add(y, kind="build", changes=descs)
+        add(dict(y, sched={"mode": "prng", "seed": r.randint(1, 10 ** 6)}), kind="rebuild")
+    return cur, steps, meta
+
+
+def run_dd_restat(ctx, focus, nscen, salt=11):
+    rng = random.Random(ctx.seed * 7919 + {"C01": 1, "C02": 2, "C03": 3}.get(focus, 0) + salt * 104729)
+    scenarios, metas = [], {}
+    for n in range(nscen):
+        g = gen.Gen(random.Random(rng.randint(0, 2 ** 60)), size=rng.randint(1, 4),
+                    feat=dict(dyndep=1.0, restat=0.2, phony=0.2, deps=0.2, generator=0.0, chain=0.7, early=0.0))
+        sc = g.scenario("%s-%d-ddr-%d" % (focus, ctx.seed, n))
+        h = make_dd_restat_history(g, sc)
+        if h is None:
+            continue
+        cur0, steps, meta = h
+        base = copy.deepcopy(sc)
+        base["sources"] = meta[0]["sc"]["sources"]
+        scn = simlib.scenario_json(meta[0]["sc"], steps)
+        scenarios.append(scn)
+        metas[scn["id"]] = meta
+    judge = HistoryJudge(ctx, focus)
+
+    def handler(scn, results, err):
+        if results is None:
+            ctx.inconclusive += 1
+            ctx.count("nsim_died")
+            return
+        try:
+            judge.judge(scn, metas[scn["id"]], results)
+            ctx.count("dyndep_restat_histories")
+        except Exception:
+            import traceback
+            traceback.print_exc()
+            ctx.inconclusive += 1
+            ctx.count("judge_exceptions")
+    simlib.run_scenarios(scenarios, handler)
+    return scenarios
+
+
 def run_regen(ctx, focus, nscen, size_range=(2, 6), rounds=(2, 4), salt=7, feat=None):
     rng = random.Random(ctx.seed * 7919 + {"C01": 1, "C02": 2, "C03": 3}.get(focus, 0) + salt * 104729)
     scenarios, metas = [], {}
